@@ -34,10 +34,13 @@ func IsSafeTrustedResourceURLPrefix(prefix string) bool {
 	return safeTrustedResourceURLPrefixPattern.MatchString(prefix)
 }
 
-var safeTrustedResourceURLPrefixPattern = regexp.MustCompile(`(?i)^(?:` +
-	`(?:https:)?//[0-9a-z.:\[\]-]+/|` +
+// The pattern spells out both letter cases instead of using (?i): case-insensitive
+// matching in Go also folds the non-ASCII runes U+017F (ſ) to 's' and U+212A (K) to 'k',
+// which are not allowed in a scheme or in <origin>.
+var safeTrustedResourceURLPrefixPattern = regexp.MustCompile(`^(?:` +
+	`(?:[hH][tT][tT][pP][sS]:)?//[0-9a-zA-Z.:\[\]-]+/|` +
 	`/[^/\\]|` +
-	`about:blank#)`)
+	`[aA][bB][oO][uU][tT]:[bB][lL][aA][nN][kK]#)`)
 
 // URLContainsDoubleDotSegment returns whether the given URL or URL substring
 // contains the double dot-segment ".." (RFC3986 3.3) in its percent-encoded or
